@@ -82,6 +82,15 @@ def run(ctx):
                 base['markers'] = {k: v for k, v in base['markers'].items()}
             elif kind in ('flatten', 'drop+flatten'):
                 img['cfg']['flatten'] = True
+                if kind == 'flatten' and rng.random() < 0.5:
+                    # a list stored under a key that is no node of this taxonomy (e.g. from another edition) with
+                    # a gene found in no other list: flattening pools EVERY list of the table
+                    usable = [g for g in img['qgenes'] if g <= img['G']]
+                    g0 = usable[-1]
+                    if all(len(v) > 1 or g0 not in v for v in img['markers'].values()):
+                        for k in list(img['markers']):
+                            img['markers'][k] = [g for g in img['markers'][k] if g != g0]
+                        img['markers']['7/7'] = [g0]
                 if kind == 'drop+flatten':
                     img['cfg']['drop'] = lev
                     # give the parents of the dropped level a gene that occurs in no other list, so
@@ -101,7 +110,7 @@ def run(ctx):
                 allg = sorted(set(g for v in img['markers'].values() for g in v))
                 base['markers'] = {'0/0': allg}
             else:
-                img['cfg']['drop_name'] = rng.choice(['no_such_level', 'prefix-of-top'])
+                img['cfg']['drop_name'] = rng.choice(['no_such_level', 'prefix-of-top', 'top-with-blank', 'blank-top'])
             scheme = rng.choice(['structural', 'reversed', 'shared', 'prefix'])
             items.append((img, scheme, {}))
             items.append((base, scheme, {}))
